@@ -945,6 +945,8 @@ let suite_e2e t v =
   (* C02 *)
   if fi "bad_removes" > 0 || fi "bad_removes_before_crash" > 0 then oracle v "deleted_without_validated_copy" false;
   if fi "source_lost" > 0 then oracle v "source_gone_receiver_lacks_it" false;
+  if fi "released_without_positive_answer" > 0 then oracle v "released_without_positive_answer" false;
+  if fi "confirmed_left_unrecorded" > 0 then oracle v "confirmed_left_unrecorded_at_exit" false;
   (* C08 *)
   if fi "sent_before_all_acked" > 0 then oracle v "logged_sent_before_all_bytes_acknowledged" false;
   (* C17 / C01 *)
